@@ -12,7 +12,8 @@ EXPLANATION = (
     "instance names; (f) legacy unicast: destination iff source port != 5353, questions echoed and cache-flush bits "
     "cleared before the send, unicast routing, and F15 — the query ID reaches write_header on a feasible path.  "
     "Decides these necessary conditions, not set equality of answers over all query mixes."
-    " (g,h) The answer builders use rename-resolved names and the answering service is found by scanning my_services for resolve_name(key) == question name, never by the registered key.")
+    " (g,h) The answer builders use rename-resolved names and the answering service is found by scanning my_services for resolve_name(key) == question name, never by the registered key."
+    " (j) In add_interface every announce attempt is followed on all paths by a status write for that interface. (k) The known-answer formula (shared with C10a).")
 UNDECIDED = ["'exactly the records that match each question' as a set equality over all query mixes",
              "subtype-question / answer-name relation", "interplay with known answers (C10)"]
 
@@ -309,7 +310,9 @@ def clause_g(ctx, P):
 
 
 def run(ctx, P):
-    from . import f5
+    from . import f5, r2, c10
+    r2.interface_rules(ctx, P, "C06j", want=("status",))
+    c10.clause_a(ctx, P, "C06k")     # what a known answer may suppress
     f5.check_map_key_consistency(ctx, P, "C06i.F5.name-changes-keys", "name_changes", "DnsRegistry")
     f4.check_service_selected_by_resolved_name(ctx, P, "C06h")
     clause_g(ctx, P)
